@@ -714,6 +714,7 @@ func (fc *followerController) handleSnapshot(stream proto.OxiaLogReplication_Sen
 
 	totalSize, err := fc.readSnapshotStream(stream, loader)
 	if err != nil {
+		fc.reopenDBAfterFailedSnapshot(loader)
 		return
 	}
 
@@ -755,6 +756,32 @@ func (fc *followerController) handleSnapshot(stream proto.OxiaLogReplication_Sen
 		slog.Int64("snapshot-size", totalSize),
 		slog.Int64("commit-offset", commitOffset),
 	)
+}
+
+// reopenDBAfterFailedSnapshot is called when a snapshot transfer breaks: the old database is
+// gone and the partial files are discarded, but the term this node has answered for was only
+// stored in that database. Open an empty one and store the term again right away, or a
+// restart in this state would bring the node back without a term.
+func (fc *followerController) reopenDBAfterFailedSnapshot(loader kv.SnapshotLoader) {
+	if err := loader.Close(); err != nil || fc.term == wal.InvalidTerm {
+		return
+	}
+	// The partial files are gone; the deferred Close of the loader must not remove the new database
+	loader.Complete()
+	newDb, err := kv.NewDB(fc.namespace, fc.shardId, fc.kvFactory, fc.config.NotificationsRetentionTime, time.SystemClock)
+	if err != nil {
+		fc.log.Warn("Failed to reopen the database after a failed snapshot", slog.Any("error", err))
+		return
+	}
+	if err = newDb.UpdateTerm(fc.term, fc.termOptions); err != nil {
+		fc.log.Warn("Failed to store the term after a failed snapshot", slog.Any("error", err))
+		_ = newDb.Close()
+		return
+	}
+	newDb.EnableNotifications(fc.termOptions.NotificationsEnabled)
+	fc.db = newDb
+	fc.commitOffset.Store(wal.InvalidOffset)
+	fc.lastAppendedOffset = wal.InvalidOffset
 }
 
 func (fc *followerController) GetStatus(_ *proto.GetStatusRequest) (*proto.GetStatusResponse, error) {
